@@ -20,7 +20,7 @@ func init() { recorders["C12"] = recC12 }
 
 func recC12(c *ctx) {
 	r := c.r
-	n := c.budget(4, 96)
+	n := c.budget(4, 40)
 	L := vt.L
 	emit := func(e vt.Ev) { e["cfg"] = c.cfg; c.w.Emit(e) }
 	// one signing context is reused for several transcripts, as applications do
@@ -286,7 +286,7 @@ func recC12(c *ctx) {
 		dec("edsec", b)
 	}
 	// ---- batch histories: results equal single verification
-	nb := c.budget(6, 120)
+	nb := c.budget(6, 60)
 	for h := 0; h < nb; h++ {
 		sh := h % 16
 		bemit := func(e vt.Ev) { e["cfg"] = c.cfg; e["hist"] = h; c.w.EmitTo(sh, e) }
